@@ -110,12 +110,20 @@ func main() {
 	}
 }
 
+var annCache = map[string]map[string]string{}
+
 func doOCI(ctx context.Context, s *oci.Store, op crash.Op) error {
 	desc := ocispec.Descriptor{MediaType: op.MediaType, Digest: op.DigestValue(), Size: op.Size}
 	switch op.Op {
 	case "push":
 		return s.Push(ctx, desc, bytes.NewReader(op.Content()))
 	case "tag":
+		if op.Ann {
+			if annCache[op.Digest] == nil {
+				annCache[op.Digest] = map[string]string{"verif.described": "yes"}
+			}
+			desc.Annotations = annCache[op.Digest]
+		}
 		return s.Tag(ctx, desc, op.Ref)
 	case "untag":
 		return s.Untag(ctx, op.Ref)
